@@ -119,10 +119,16 @@ def rule_ctor(facts, rep):
     rep.check(e.get("ctor", "").endswith("Result::Err") and hir.is_local(e["args"][0], "raw"), "ctor", w["path"], "Err(raw)-on-this-target", "", loc(w))
     au = facts.body("anstream", A + "auto")
     rep.fn(au["path"])
-    lets = {s["pat"]["name"]: s["init"] for s in hir.stmts_of(au["hir"]) if s.get("k") == "let" and s["pat"].get("k") == "pbind"}
-    tail = hir.simp(hir.stmts_of(au["hir"])[-1])
-    ok = hir.is_call(hir.simp(lets.get("choice", {})), A + "choice") and hir.is_call(tail, A + "new") and [hir.local_name(a) for a in tail["args"]] == ["raw", "choice"]
-    rep.check(ok, "ctor", au["path"], "new(raw, choice(&raw))", "", loc(au))
+    # by evaluation: the stream handed to new() together with what the detection (the free function `choice`, reached directly or
+    # through the public AutoStream::choice) says about that same stream
+    try:
+        atoms = dict(tagged("new"))
+        atoms["anstream::auto::choice"] = lambda a_: ("choice-of",) + tuple(a_)
+        r = abseval.Evaluator(facts, "anstream", atoms).call_fn("anstream", au["path"], [RAW])
+        ok, why = r == ("made-by", "new", RAW, ("choice-of", RAW)), str(r)[:120]
+    except Unrecognised as ex:
+        ok, why = False, f"not evaluable: {ex}"
+    rep.check(ok, "ctor", au["path"], "new(raw, choice(&raw))", why, loc(au))
     # the mode field is written only by constructors (struct expressions) — no assignment to `.inner` anywhere
     writers = []
     for body in facts.bodies("anstream"):
@@ -150,29 +156,33 @@ def forward_one(facts, rep, meth):
                     f"is not equivalent to the strip stream's own `{meth}` (a retried buffer is re-stripped from the entry state)")
             return
         rep.fn(b["path"])
-        m = ac.single_expr(b["hir"])
-        sc = hir.peel(m["scrut"])
-        rep.check(hir.place_str(sc) == "self.inner", "forward", b["path"], "dispatch-on-self.inner", "", loc(b))
-        params = [p.get("name") for p in b["params"][1:]]
-        for a in m["arms"]:
-            v = hir.last_seg(hir.pat_path(a["pat"]))
-            w = a["pat"]["pats"][0].get("name")
-            c = ac.single_expr(a["body"])
-            ok = False
-            why = ""
-            if c.get("k") == "call":
-                rest = [hir.local_name(x) for x in c["args"][1:]]
-                recv = hir.simp(c["args"][0])
-                if v == "PassThrough":
-                    ok = (hir.callee_decl(c) == "std::io::Write::" + meth and hir.is_call(recv, "anstream::stream::AsLockedWrite::as_locked_write")
-                          and hir.is_local(recv["args"][0], w) and rest == params)
-                    why = f"PassThrough must be w.as_locked_write().{meth}({', '.join(params)}); found {hirpp.expr(c)[:120]}"
-                elif v == "Strip":
-                    ok = hir.callee(c) == SW + meth and hir.is_local(recv, w) and rest == params
-                    why = f"Strip must be the StripStream's own {meth}({', '.join(params)}); found {hirpp.expr(c)[:120]}"
-            rep.check(ok, "forward", b["path"], f"{v}→{meth}", why, loc(b, a))
+        # by evaluation on a stream in each of the two modes: what the call amounts to — the raw stream locked and given the same
+        # method with the same arguments, or the strip stream's own override with the same arguments.  A dispatch written in place,
+        # in a helper, or in an impl on the private mode enum is the same thing.
+        import abseval
+        params = [("sym", p.get("name")) for p in b["params"][1:]]
+        got = {}
+        for v in ("PassThrough", "Strip"):
+            atoms = {"anstream::stream::AsLockedWrite::as_locked_write": lambda a_: ("locked", a_[0])}
+            for m_ in METHODS:
+                atoms["std::io::Write::" + m_] = (lambda a_, m_=m_: ("raw-call", m_) + tuple(a_))
+                atoms[SW + m_] = (lambda a_, m_=m_: ("strip-call", m_) + tuple(a_))
+            ev = abseval.Evaluator(facts, "anstream", atoms)
+            ev.prefer_local_impls = True
+            try:
+                got[v] = ev.call_fn("anstream", b["path"], [("rec", {"inner": ("ctor", AI + "::" + v, ("sym", "w"))})] + params)
+            except Unrecognised as ex:
+                got[v] = ("not-evaluable", str(ex)[:100])
+        evaluable = all(g[0] != "not-evaluable" for g in got.values())
+        rep.check(evaluable, "forward", b["path"], "dispatch-on-self.inner", f"{got}"[:300], loc(b))
+        want = {"PassThrough": ("raw-call", meth, ("locked", ("sym", "w"))) + tuple(params), "Strip": ("strip-call", meth, ("sym", "w")) + tuple(params)}
+        for v in ("PassThrough", "Strip"):
+            why = (f"PassThrough must be w.as_locked_write().{meth}(..)" if v == "PassThrough" else f"Strip must be the StripStream's own {meth}(..)") + f"; evaluates to {str(got[v])[:160]}"
+            rep.check(got[v] == want[v], "forward", b["path"], f"{v}→{meth}", why, loc(b))
             rep.count()
-        rep.check(sorted(hir.last_seg(hir.pat_path(a["pat"])) for a in m["arms"]) == ["PassThrough", "Strip"], "forward", b["path"], "two-arms", "", loc(b))
+        it = [x for x in facts.items("anstream") if x["dk"] == "Enum" and x["path"] == AI]
+        names = sorted(hir.last_seg(v_["path"]) if "path" in v_ else v_.get("name", "?") for v_ in it[0].get("variants", [])) if it else []
+        rep.check(names == ["PassThrough", "Strip"], "forward", b["path"], "two-arms", f"modes of the stream: {names}", loc(b))
 
 
 def forward_strip(facts, rep):
